@@ -562,10 +562,9 @@ func (s *scanningState) scan(line []byte) (bool, error) {
 				}
 				s.Goroutines = append(s.Goroutines, g)
 				s.state = gotRoutineHeader
-				if len(s.Goroutines) == 1 {
-					// Later headers already had the indentation stripped.
-					s.prefix = append([]byte{}, match[1]...)
-				}
+				// Later headers already had the known indentation stripped; only
+				// add what is new.
+				s.prefix = append(s.prefix, match[1]...)
 				return true, nil
 			}
 		}
